@@ -139,7 +139,11 @@ var ruleAliases = &core.Rule{ID: "R15.2", Min: 60,
 					part := false
 					for d := 0; d < 3; d++ {
 						if sl, ok := v.(*ssa.Slice); ok {
-							if sl.Low != nil && !core.IsConstInt(sl.Low, 0) || sl.High != nil {
+							full := sl.High == nil
+							if ln, ok := sl.High.(*ssa.Call); ok && core.IsBuiltin(&ln.Call, "len") && ln.Call.Args[0] == sl.X {
+								full = true // x[:len(x)] (also as a three-index slice that only clips the capacity)
+							}
+							if sl.Low != nil && !core.IsConstInt(sl.Low, 0) || !full {
 								part = true
 							}
 							v = sl.X
